@@ -27,7 +27,7 @@ func TestVerifC09(t *testing.T) {
 		w := newWorld(r, cfg)
 		nBackups := tp.Range(2, 4)
 		sweep := tp.Choose(5) == 4
-		dupMode := tp.Choose(3) == 0 // duplicates in the index (crashed backup, same data again, repair index) and a redundant pack that goes missing
+		dupMode := tp.Choose(5) >= 3 // duplicates in the index (crashed backup, same data again, repair index) and a redundant pack that goes missing
 		if sweep && hx.Tier() == "quick" && tp.Choose(3) != 0 {
 			sweep = false
 		}
@@ -45,6 +45,9 @@ func TestVerifC09(t *testing.T) {
 			for i := 0; i < nBackups; i++ {
 				if tp.Choose(4) == 0 || dupMode && i == 0 {
 					f := fault{Kind: "crash", At: 1 + tp.Choose(12)}
+					if dupMode && i == 0 {
+						f.At = 3 + tp.Choose(20) // far enough for several packs to be uploaded
+					}
 					w.backupFaulty(tree, f)
 					w.recoverLocks("after crashed backup")
 					hist = append(hist, "backup("+f.String()+")")
@@ -83,6 +86,15 @@ func TestVerifC09(t *testing.T) {
 				}
 			}
 			popts, pdesc := w.genPruneOpts()
+			if dupMode && tp.Choose(2) == 0 {
+				// a prune that repacks every partly used pack, no faults: the duplicate handling decides
+				popts = PruneOptions{MaxUnused: "0"}
+				pdesc = "max-unused=0 (everything partly used is repacked)"
+				if len(forgetIDs) == 0 && len(ids) > 1 {
+					forget[ids[0]] = true
+					forgetIDs = append(forgetIDs, ids[0])
+				}
+			}
 			combined := tp.Choose(2) == 0 && len(forgetIDs) > 0
 			stickySnapshotRemove := tp.Choose(4) == 0
 			r.Set("history", fmt.Sprint(hist))
@@ -151,12 +163,14 @@ func TestVerifC09(t *testing.T) {
 				if len(dupCands) > 0 && tp.Choose(3) != 0 {
 					cands = dupCands
 				}
-				if len(cands) > 0 && tp.Choose(4) != 0 {
+				if len(cands) > 0 {
+					r.Count("dup_mode_with_candidates", 1)
 					missingPack = cands[tp.Choose(len(cands))]
 					w.store.Del(backend.Handle{Type: backend.PackFile, Name: missingPack})
 					hist = append(hist, "redundant-pack-"+missingPack[:8]+"-goes-missing")
 					w.s.Count("fault:redundant-pack-deleted")
 				}
+				r.Count("dup_mode", 1)
 				r.Set("history", fmt.Sprint(hist))
 			}
 			s0 := w.store.Clone()
